@@ -2,7 +2,31 @@
 #include "xvcommon.hpp"
 using namespace xv;
 
+// src=stdin: StdInInputSource reads fd 0, which is the protocol pipe here -- run that parse in a forked child whose fd 0 is the document
+static std::string parseViaStdin(const Req& r) {
+    std::string p = writeScratch("stdin.xml", r.find("doc")->second);
+    int pfd[2]; if (pipe(pfd) != 0) return "EXC\tHARNESS-pipe\n";
+    pid_t pid = fork();
+    if (pid == 0) {
+        close(pfd[0]);
+        int fd = open(p.c_str(), O_RDONLY); dup2(fd, 0); close(fd);
+        clearerr(stdin);
+        ParseOut po; runParse(r, po);
+        std::string out = po.ced;
+        size_t off = 0; while (off < out.size()) { ssize_t n = write(pfd[1], out.data() + off, out.size() - off); if (n <= 0) break; off += (size_t)n; }
+        close(pfd[1]); _exit(0);
+    }
+    close(pfd[1]);
+    std::string out; char buf[65536]; ssize_t n;
+    while ((n = read(pfd[0], buf, sizeof buf)) > 0) out.append(buf, (size_t)n);
+    close(pfd[0]);
+    int stt = 0; waitpid(pid, &stt, 0);
+    if (!WIFEXITED(stt) || WEXITSTATUS(stt) != 0) { char b[64]; snprintf(b, sizeof b, "EXC\tCHILD-DIED\t%d\n", stt); out += b; }
+    return out;
+}
+
 static std::string hParse(const Req& r) {
+    if (get(r, "src") == "stdin") return parseViaStdin(r);
     ParseOut po; runParse(r, po);
     std::string out = po.ced;
     char b[200];
